@@ -1,4 +1,4 @@
-// Correspondence harness for C01/C02: calls every specified overload of the gmp++ Integer API
+// Correspondence harness for C01/C02 (and, with -DALIAS_STUBS, C15 on the Integer layer): calls every specified overload of the gmp++ Integer API
 // (stubs generated from the clang AST by translate/gen_integer.py) on the arguments of each
 // input line and prints the returned value and the final values of the output parameters.
 #include "proto.h"
@@ -25,7 +25,11 @@ typedef IOut Out;
 static ZRing<Integer> ZZ;
 
 static const std::map<std::string, std::function<void(Args&, Out&)>> TABLE = {
+#ifdef ALIAS_STUBS
+#include "integerAlias_calls.inc"
+#else
 #include "integer_calls.inc"
+#endif
 };
 
 int main() {
